@@ -351,13 +351,15 @@ JANET_CORE_FN(cfun_array_remove,
         if (n < 0)
             janet_panicf("expected non-negative integer for argument n, got %v", argv[2]);
     }
-    if (at + n > array->count) {
+    if (n > array->count - at) {
         n = array->count - at;
     }
-    memmove(array->data + at,
-            array->data + at + n,
-            (array->count - at - n) * sizeof(Janet));
-    array->count -= n;
+    if (n > 0) {
+        memmove(array->data + at,
+                array->data + at + n,
+                (size_t)(array->count - at - n) * sizeof(Janet));
+        array->count -= n;
+    }
     return argv[0];
 }
 
